@@ -188,6 +188,12 @@ type Session struct {
 	// eager broker (see step "eagerping"): PINGREQs answered from the link's write hook
 	eagerMu       sync.Mutex
 	eagerAnswered int
+	// collectMu guards the trace bookkeeping and the reactive peers' state: with eager peers (step
+	// "eager") they also run on the gateway's writing goroutines
+	collectMu  sync.Mutex
+	eagerOn    bool
+	prevMQHook func([]byte)
+	prevSNHook func([]byte)
 }
 
 // clientLearn keeps the reactive client's name -> ID table (what it registered itself and got
@@ -316,6 +322,15 @@ func (s *Session) BrokerSendRaw(b []byte) {
 // collect moves what the gateway wrote since the last call into the trace and
 // returns the new events' indices.
 func (s *Session) collect() (newEv []int) {
+	s.collectMu.Lock()
+	newEv = s.collectTraffic()
+	s.collectMu.Unlock()
+	s.detectEnd()
+	return
+}
+
+// collectTraffic: the traffic part of collect (collectMu held).
+func (s *Session) collectTraffic() (newEv []int) {
 	type item struct {
 		at time.Time
 		e  Event
@@ -358,6 +373,11 @@ func (s *Session) collect() (newEv []int) {
 		s.tr.MQClosed, s.tr.MQCloseNs = true, int64(at.Sub(s.start))
 		s.evAt(Event{Dir: EV, What: "MQEOF"}, at)
 	}
+	return
+}
+
+// detectEnd notes the end of the session (outside collectMu: it waits for quiescence).
+func (s *Session) detectEnd() {
 	select {
 	case <-s.Done:
 		if !s.endSeen {
@@ -369,7 +389,6 @@ func (s *Session) collect() (newEv []int) {
 		}
 	default:
 	}
-	return
 }
 
 // Reactions computes what the scripted peers (which know only the protocols)
@@ -499,8 +518,12 @@ func (s *Session) react(idx []int) bool {
 func (s *Session) Settle() {
 	for i := 0; i < 200; i++ {
 		synctest.Wait()
-		idx := s.collect()
-		if !s.react(idx) {
+		s.collectMu.Lock()
+		idx := s.collectTraffic()
+		sent := s.react(idx)
+		s.collectMu.Unlock()
+		s.detectEnd()
+		if !sent {
 			return
 		}
 	}
@@ -615,17 +638,59 @@ func (s *Session) Apply(i int, st Step) {
 		// D > 0: it still takes D more bytes (the rest of its socket buffer)
 		s.ev(Event{Dir: EV, What: fmt.Sprintf("MQSTALL room=%d", st.D)})
 		s.MQ.SetStalledAfter(true, int(st.D))
+	case "eager":
+		// From now on both scripted peers react to what the gateway writes the moment it is written -
+		// from the links' write hooks, while the writing goroutine is still inside the write (it then
+		// yields D times) - instead of when the gateway has come to rest: a broker on the same host, a
+		// client on a fast link. D < 0: off.
+		if st.D < 0 {
+			if s.eagerOn {
+				s.MQ.OnWrite, s.SN.OnWrite, s.eagerOn = s.prevMQHook, s.prevSNHook, false
+			}
+			return
+		}
+		yield := int(st.D)
+		s.ev(Event{Dir: EV, What: fmt.Sprintf("EAGER yield=%d", yield)})
+		if !s.eagerOn {
+			// (the enforcing broker model listens on the same hook: it goes first)
+			s.prevMQHook, s.prevSNHook, s.eagerOn = s.MQ.OnWrite, s.SN.OnWrite, true
+		}
+		hook := func(prev func([]byte)) func([]byte) {
+			return func(b []byte) {
+				if prev != nil {
+					prev(b)
+				}
+				s.collectMu.Lock()
+				idx := s.collectTraffic()
+				s.react(idx)
+				s.collectMu.Unlock()
+				for i := 0; i < yield; i++ {
+					runtime.Gosched()
+				}
+			}
+		}
+		s.MQ.OnWrite, s.SN.OnWrite = hook(s.prevMQHook), hook(s.prevSNHook)
+		return
 	case "eagerping":
 		// From now on the broker answers a PINGREQ the moment the gateway writes it - from the link's
 		// write hook, while the writing goroutine is still inside the write (it then yields D times:
 		// a write is a system call) - instead of when the gateway has come to rest. D < 0: off.
 		if st.D < 0 {
-			s.MQ.OnWrite = nil
+			if s.eagerOn {
+				s.MQ.OnWrite, s.eagerOn = s.prevMQHook, false
+			}
 			return
 		}
 		yield := int(st.D)
 		s.ev(Event{Dir: EV, What: fmt.Sprintf("EAGERPING yield=%d", yield)})
+		if !s.eagerOn {
+			s.prevMQHook, s.prevSNHook, s.eagerOn = s.MQ.OnWrite, s.SN.OnWrite, true
+		}
+		prev := s.prevMQHook
 		s.MQ.OnWrite = func(b []byte) {
+			if prev != nil {
+				prev(b)
+			}
 			if len(b) == 2 && b[0] == 0xc0 && b[1] == 0 {
 				s.eagerMu.Lock()
 				s.eagerAnswered++
